@@ -326,7 +326,7 @@ func c04Collection(c *Ctx, ge *GuardEngine, ctors map[string]string) {
 	applied := false
 	for _, cf := range cs {
 		if cf.Callee != nil && strings.HasSuffix(FuncName(cf.Callee), ".applyBlock") && len(cf.Args) == 3 && len(cf.Chain) == 1 {
-			applied = cf.Args[0] == "{consensus.State}.Elements" && strings.HasPrefix(cf.Args[1], "append(") && strings.HasPrefix(cf.Args[2], "append(")
+			applied = cf.Args[0] == "{consensus.State}.Elements" && strings.Contains(cf.Args[1], "append(") && strings.Contains(cf.Args[2], "append(")
 		}
 	}
 	c.Check(applied, "leaf-collection", "handed-to-accumulator", c.P.Pos(fn.Pos()), "the parent state's accumulator receives both the updated and the added leaves")
